@@ -155,8 +155,17 @@ class TracingLock:
 
 # ------------------------------------------------------------------------------------------------
 BASE = ["x", "y"]  # the tree's committed initial content
-OPS = ["save_stream", "save_path", "copy", "copy_pred", "filtered", "copy_to", "to_dict_list", "to_dotfile", "with"]
-SILENT_READ_OPS = {"copy", "copy_to"}  # operations without a user callback: reads cannot be announced
+OPS = ["save_stream", "save_path", "copy", "copy_pred", "filtered", "copy_to", "to_dict_list", "to_dotfile", "with",
+       "copy_to_refused", "save_mapper_raises"]
+SILENT_READ_OPS = {"copy", "copy_to", "copy_to_refused"}  # operations without a user callback: reads cannot be announced
+
+
+class ExpectedFailure(Exception):
+    """the operation ended with the exception the scenario provokes (the lock must be free afterwards)"""
+
+
+class Boom(Exception):
+    pass
 
 
 def _entry_name(payload):
@@ -211,6 +220,30 @@ def run_reader_op(tree, op, sched: Scheduler, tmpdir):
         t2 = type(tree)("target")
         tree.copy_to(t2)
         return markers([n.name for n in t2]), 0
+    if op == "copy_to_refused":
+        # the target already holds one of the top-level nodes: refused with the uniqueness error inside the lock
+        from nutree.common import UniqueConstraintError
+        t2 = type(tree)("target")
+        if hasattr(t2, "DEFAULT_CHILD_TYPE"):
+            t2.add(BASE[0], kind="base", data_id="id_" + BASE[0])
+        else:
+            t2.add(BASE[0], data_id="id_" + BASE[0])
+        try:
+            tree.copy_to(t2)
+        except UniqueConstraintError:
+            raise ExpectedFailure() from None
+        return -1, 0
+    if op == "save_mapper_raises":
+        def bad_mapper(node, data):
+            note_read()
+            if calls["n"] == 2:
+                raise Boom()
+            return data
+        try:
+            tree.save(io.StringIO(), mapper=bad_mapper, key_map=False)
+        except Boom:
+            raise ExpectedFailure() from None
+        return -1, calls["n"]
     if op == "to_dict_list":
         dl = tree.to_dict_list(mapper=mapper)
         return markers([d["data"] for d in dl]), calls["n"]
@@ -243,7 +276,7 @@ def build_tree(typed=False):
 
 
 def run_trace(op, *, schedule=None, nested=True, nested_op="to_dict_list", writers=("w1",), readers=("r1",), tmpdir="/tmp",
-              trace_id=0, reader_ops=None, typed=False):
+              trace_id=0, reader_ops=None, typed=False, rebuild=False):
     """One execution with real threads.  Returns the trace record for TraceLock."""
     tree = build_tree(typed)
     rec = Recorder()
@@ -265,6 +298,15 @@ def run_trace(op, *, schedule=None, nested=True, nested_op="to_dict_list", write
             with tree:
                 sched.step("mut", version["v"] + 1)
                 version["v"] += 1
+                if rebuild:
+                    # the first mutation empties the tree and rebuilds it (every list object of the old tree is dropped)
+                    old = [(n.name, n.data_id, getattr(n, "kind", None)) for n in tree.children]
+                    tree.clear()
+                    for nm, did, kd in old:
+                        if typed:
+                            tree.add(nm, kind=kd, data_id=did)
+                        else:
+                            tree.add(nm, data_id=did)
                 if typed:   # every mutation introduces a new kind (the kind list is part of a typed snapshot)
                     tree.add(f"w{k}a", kind=f"ka{k}", data_id=f"id_w{k}a")
                 else:
@@ -294,8 +336,11 @@ def run_trace(op, *, schedule=None, nested=True, nested_op="to_dict_list", write
         sched.register(name)
         try:
             sched.step("start")
-            shows, ncalls = run_reader_op(tree, rops[name], sched, tmpdir)
-            rec.log(name, "snap", shows)
+            try:
+                shows, ncalls = run_reader_op(tree, rops[name], sched, tmpdir)
+                rec.log(name, "snap", shows)
+            except ExpectedFailure:
+                pass  # no snapshot; the protocol (acquire ... release) must have been completed nevertheless
             sched.step("end")
         except _Abort:
             pass
@@ -318,7 +363,7 @@ def run_trace(op, *, schedule=None, nested=True, nested_op="to_dict_list", write
             raise MachineryTimeout(f"thread did not finish (op={op}, schedule={schedule})")
     if errors:
         raise errors[0]
-    return {"id": trace_id, "op": ("typed:" if typed else "") + "+".join(sorted(set(rops.values()))) + ("/nested:" + nested_op if nested else ""),
+    return {"id": trace_id, "op": ("typed:" if typed else "") + ("rebuild:" if rebuild else "") + "+".join(sorted(set(rops.values()))) + ("/nested:" + nested_op if nested else ""),
             "events": rec.events, "forced": schedule is not None}
 
 
